@@ -148,28 +148,29 @@ Section Net.
      peers, and router addresses are distinct. *)
   Variable rank : N -> nat.
   Variable b : N.
+  Variable dom : N -> Prop.                  (* the routers of the mesh *)
   Hypothesis self_id : forall r, n_self (net r) = r.
   Hypothesis rlink_peer : forall r p l, rlink r p = Some l -> lnk_peer l = p.
   Hypothesis b_routable : routable b = true.
-  Hypothesis progress : forall r, r <> b ->
+  Hypothesis progress : forall r, dom r -> r <> b ->
     exists e m l, lookup_nearest_route (n_table (net r)) b = Some (e, m) /\
                   link_by_peer (net r) (e_nexthop e) = Some l /\ lnk_peer l = e_nexthop e /\
-                  (rank (e_nexthop e) < rank r)%nat.
+                  dom (e_nexthop e) /\ (rank (e_nexthop e) < rank r)%nat.
 
   Lemma deliver_progress : forall k at_ from f,
-    (rank at_ <= k)%nat -> ff_dst f = b -> ff_sb f = [] -> is_hop_ping (ff_ty f) = false ->
+    dom at_ -> (rank at_ <= k)%nat -> ff_dst f = b -> ff_sb f = [] -> is_hop_ping (ff_ty f) = false ->
     (forall r, (rank r <= rank at_)%nat -> r <> ff_src f) ->
     (rank at_ < rank from)%nat -> (N.of_nat (rank at_) < ff_ttl f) ->
     exists f', deliver net rlink flag (S k) at_ from f = Some (b, f').
   Proof.
-    induction k as [k IH] using lt_wf_ind. intros at_ from f Hk Hd Hsb Hh Hsrc Hfrom Httl.
+    induction k as [k IH] using lt_wf_ind. intros at_ from f Hdom Hk Hd Hsb Hh Hsrc Hfrom Httl.
     cbn [deliver]. unfold arrive, switch_handle. rewrite self_id.
     destruct (N.eqb_spec (ff_src f) at_) as [E|_]; [exfalso; apply (Hsrc at_); [lia|auto]|].
     rewrite Hsb. unfold router_handle. rewrite self_id, Hd.
     destruct (N.eqb_spec b at_) as [E|Hne].
     - subst at_. eexists. reflexivity.
     - rewrite <- Hd, Hh. unfold route_frame. rewrite Hd, b_routable. cbn [negb].
-      destruct (progress at_ (fun E => Hne (eq_sym E))) as (e & m & l & Hl & Hlk & Hlp & Hr).
+      destruct (progress at_ Hdom (fun E => Hne (eq_sym E))) as (e & m & l & Hl & Hlk & Hlp & Hdn & Hr).
       rewrite Hl.
       assert (Hloop : (match rlink at_ from with Some r => e_nexthop e =? lnk_peer r | None => false end) = false).
       { destruct (rlink at_ from) as [r|] eqn:Er; [|reflexivity].
@@ -185,15 +186,15 @@ Section Net.
   (* In a converged mesh a frame router a originates for b with enough TTL is handed to b's
      handlers (and, [deliver] being a function, to nobody else's), with its content preserved. *)
   Theorem converged_delivery : forall a f,
-    a <> b -> ff_src f = a -> ff_dst f = b -> ff_sb f = [] -> is_hop_ping (ff_ty f) = false ->
+    dom a -> a <> b -> ff_src f = a -> ff_dst f = b -> ff_sb f = [] -> is_hop_ping (ff_ty f) = false ->
     (forall r, (rank r < rank a)%nat -> r <> a) ->
     N.of_nat (rank a) < ff_ttl f ->
     exists f', deliver_from_origin net rlink flag (S (rank a)) a f = Some (b, f') /\
                ff_ty f' = ff_ty f /\ ff_src f' = ff_src f /\ ff_dst f' = ff_dst f /\ ff_rest f' = ff_rest f /\ ff_sb f' = [].
   Proof.
-    intros a f Hab Hsrc Hd Hsb Hh Hdist Httl.
+    intros a f Hdoma Hab Hsrc Hd Hsb Hh Hdist Httl.
     unfold deliver_from_origin, originate, route_frame. rewrite Hd, b_routable. cbn [negb].
-    destruct (progress a Hab) as (e & m & l & Hl & Hlk & Hlp & Hr).
+    destruct (progress a Hdoma Hab) as (e & m & l & Hl & Hlk & Hlp & Hdn & Hr).
     rewrite Hl, Hlk. unfold forward_to_link.
     assert (Ht : reduce_ttl (ff_ttl f) = ff_ttl f - 1) by (unfold reduce_ttl; destruct (N.ltb_spec 1 (ff_ttl f)); lia).
     rewrite Ht. destruct (N.eqb_spec (ff_ttl f - 1) 0) as [E|_]; [lia|].
